@@ -203,9 +203,13 @@ class _GlobSplit(Generic[AnyStr]):
         """Handle character group."""
 
         c = next(i)
-        if c == '!':
+        if c in ('!', '^'):
             c = next(i)
-        if c in ('^', '-', '['):
+        if c == '[':
+            # A POSIX character class (`[:alpha:]`) is one member: its `]` does not end the sequence
+            i.match(_wcparse.RE_POSIX)
+            c = next(i)
+        elif c in ('-', ']'):
             c = next(i)
 
         while c != ']':
@@ -217,6 +221,8 @@ class _GlobSplit(Generic[AnyStr]):
                     raise StopIteration from e
             elif c == '/':
                 raise StopIteration
+            elif c == '[':
+                i.match(_wcparse.RE_POSIX)
             c = next(i)
 
     def _references(self, i: util.StringIter, sequence: bool = False) -> str:
